@@ -559,13 +559,13 @@ type Stats struct {
 
 // Explorer enumerates all schedules with at most Bound preemptions.
 type Explorer struct {
-	cfg   Config
-	setup func(r *Run)
-	visit func(o *Outcome) bool
-	st    Stats
-	seen  map[uint64]struct{}
-	stop  bool
-	nexec int64
+	cfg        Config
+	setup      func(r *Run)
+	visit      func(o *Outcome) bool
+	st         Stats
+	seen       map[uint64]struct{}
+	stop       bool
+	nexec      int64
 	parentDesc string
 }
 
